@@ -5,6 +5,7 @@ from buidl.blinding import blind_xpub, combine_bip32_paths
 from buidl.hd import HDPrivateKey, HDPublicKey
 
 from vf.core import Discard, Sub, attempt, must, require
+from vf.gen import rand_bytes as gen_rand
 from vf.ref import bip32, ec
 
 HARD = bip32.HARD
@@ -35,7 +36,7 @@ def selftest():
 
 
 def seeds():
-    return st.one_of(st.binary(min_size=16, max_size=64),
+    return st.one_of(gen_rand(16), gen_rand(32), gen_rand(64), st.binary(min_size=16, max_size=64),
                      st.sampled_from([16, 32, 64]).flatmap(lambda n: st.binary(min_size=n, max_size=n)))
 
 
